@@ -10,6 +10,7 @@ mod c13;
 mod c14;
 mod c15;
 mod c16;
+mod c17;
 mod c18;
 mod c19;
 mod dist;
@@ -35,6 +36,7 @@ fn main() {
                 "C14" => c14::replay(cases, verd),
                 "C15" => c15::replay(cases, verd),
                 "C16" => c16::replay(cases, verd),
+                "C17" => c17::replay(cases, verd),
                 "C18" => c18::replay(cases, verd, args.get(5).and_then(|s| s.parse().ok()).unwrap_or(2)),
                 _ => {
                     eprintln!("no replay table for {}", prop);
